@@ -106,7 +106,7 @@ func (c15) Generate(r *core.Rng, run int, tier string) *core.History {
 			// statements whose FIRST token is a string (a cut inside it leaves nothing but an open string), and
 			// lambdas without parameters inside open brackets (a cut between `()` and `=>`)
 			bg.AddFixed([]string{core.Pick(r, []string{
-				`"a string statement"`, "`a raw string\nstatement over two lines`", `"x y" + "z"`,
+				`"a string statement"`, "`a raw string\nstatement over two lines`", "rs9 = `raw, with) closing} marks] in it;\nand = ( more { on [ line two`", `"x y" + "z"`,
 				fmt.Sprintf(`ff9 = [() => %d, () => %d]`, r.Intn(9), r.Intn(9)), fmt.Sprintf(`println((() => %d)())`, r.Intn(9)),
 				fmt.Sprintf(`println(len([() => 1]), (() => { %d })())`, r.Intn(9)),
 				fmt.Sprintf(`mm9 = {1 + %d: "x", "k" + "1": %d, len("ab") * 2: 3}`, r.Intn(5), r.Intn(9)), `println({2 * 3: 1}[6], {"a" + "b": 2}.ab)`,
